@@ -147,7 +147,7 @@ Proof.
   destruct (m_raw m) as [[|x raw]|]; try congruence.
   destruct (if zerocoded (m_flags m) then zc_expand (x :: raw) else Some (x :: raw)); [|discriminate].
   destruct (find_name d (m_name m)); [|discriminate].
-  destruct (take _ _) as [[? ?]|]; [|discriminate].
+  destruct (rd _ _) as [[? ?]|]; [|discriminate].
   destruct (parse_blocks _ _ _) as [[? ?]|]; [|discriminate].
   destruct (_ && _); [discriminate|]. injection H as <-. reflexivity.
 Qed.
@@ -223,8 +223,8 @@ Proof.
   - destruct Hc as [Hs Hk]. rewrite <- Hs, El, Nat.eqb_refl in *. injection H as <- <-.
     rewrite El, Nat.eqb_refl. eauto.
   - injection H as <- <-. eauto.
-  - destruct (take (vsize tv) buf) as [[p r1]|] eqn:Et; [|discriminate].
-    apply take_some in Et as [-> Elp].
+  - destruct (rd (vsize tv) buf) as [[p r1]|] eqn:Et; [|discriminate].
+    apply rd_some in Et as [-> Elp].
     destruct (takeN (of_le p) r1) as [[pl r']|] eqn:Et2; [|discriminate].
     apply takeN_some in Et2 as [-> El]. injection H as <- <-.
     pose proof (bytes_okb_app_l _ _ Hb) as Hp.
@@ -427,11 +427,11 @@ Proof.
   unfold raw_canonical in Hcan. cbn [m_flags m_raw] in Hcan.
   destruct (if zerocoded fl then zc_expand bodyb else Some bodyb) as [buf|] eqn:Ebuf; [|discriminate].
   rewrite (find_name_of_in d t Hwf Hin) in Hbody.
-  destruct (take (freq_len (mfreq t) + length extra) buf) as [[pre buf1]|] eqn:Etk; [|discriminate].
+  destruct (rd (freq_len (mfreq t) + length extra) buf) as [[pre buf1]|] eqn:Etk; [|discriminate].
   destruct (parse_blocks false (mblocks t) buf1) as [[bd rest1]|] eqn:Epb; [|discriminate].
   destruct (is_nil bd && negb (is_nil (mblocks t))); [discriminate|].
   injection Hbody as <- ->.
-  apply take_some in Etk as [-> Lpre].
+  apply rd_some in Etk as [-> Lpre].
   (* buf is made of bytes, and starts with the message number and the extra field the header saw *)
   assert (Bbuf : bytes_okb (pre ++ buf1) = true).
   { destruct (zerocoded fl); [exact (expand_bytes _ _ Bbodyb Ebuf) | now injection Ebuf as <-]. }
